@@ -30,7 +30,9 @@ def unpack_pad(p):
 
 def text_content(small=False):
     base = GC.words_text(max_words=3 if small else 7)
-    return st.one_of(base, base, GC.mixed_text(10, newlines=True), st.sampled_from(["", "x", GC.WIDE[0], "a" * 30, GC.WIDE[1] * 12, "a b c d e f g h i j"]))
+    balanced = st.sampled_from(["ab" + GC.WIDE[0] + GC.ZERO[0] + "cd", (GC.WIDE[1] + GC.ZERO[1]) * 5, "x" + GC.WIDE[2] + GC.ZERO[0] + GC.WIDE[3] + GC.ZERO[2] + "yz w"])
+    edge = st.lists(st.sampled_from(GC.wide_edge()), min_size=1, max_size=6).map("".join)
+    return st.one_of(base, base, GC.mixed_text(10, newlines=True), balanced, edge, st.sampled_from(["", "x", GC.WIDE[0], "a" * 30, GC.WIDE[1] * 12, "a b c d e f g h i j"]))
 
 
 def text_node(mode, small=False):
@@ -46,7 +48,7 @@ def column_spec(mode):
     over = ["fold", "crop", "ellipsis"] + (["ignore"] if mode == "any" else [])
     base = dict(
         header=st.one_of(st.just(""), text_content(True)), footer=st.one_of(st.just(""), text_content(True)), justify=st.sampled_from(JUSTIFY),
-        overflow=st.sampled_from(over), ratio=st.one_of(st.none(), st.integers(1, 4)) if mode == "free" else st.one_of(st.none(), st.integers(0, 4)),
+        overflow=st.sampled_from(over), ratio=st.one_of(st.none(), st.integers(1, 4)),  # a zero share is degenerate (negative widths); not treated as a valid option
         max_width=st.one_of(st.none(), st.none(), st.integers(1, 12)),
     )
     if mode == "any":
